@@ -288,7 +288,42 @@ func (c *VCtx) heap(st *State, name string, sort Sort) *Term {
 	if t, ok := st.heaps[name]; ok {
 		return t
 	}
-	return c.declare(c.heapName(name, st.epoch), sort)
+	t := c.declare(c.heapName(name, st.epoch), sort)
+	if !c.declSet["wf:"+t.S] {
+		c.declSet["wf:"+t.S] = true
+		c.heapWellFormed(st, name, t)
+	}
+	return t
+}
+
+// heapWellFormed: every reference stored in an unconstrained heap version denotes an object that already
+// exists at that moment (so objects allocated later are different from everything reachable now).
+func (c *VCtx) heapWellFormed(st *State, name string, h *Term) {
+	if name == "G:alloc" || strings.HasPrefix(name, "G:") || strings.HasPrefix(name, "M:") {
+		return
+	}
+	k, v := arrParts(h.Sort)
+	if k != SRef {
+		return
+	}
+	var alloc *Term
+	if a, ok := st.heaps["G:alloc"]; ok {
+		alloc = a
+	} else {
+		alloc = c.declare(c.heapName("G:alloc", st.epoch), ArrSort(SRef, SBool))
+		c.heapSorts["G:alloc"] = ArrSort(SRef, SBool)
+	}
+	okRef := func(x string) string { return fmt.Sprintf("(or (= %s null) (select %s %s))", x, alloc.S, x) }
+	switch {
+	case v == SRef:
+		c.defFact(h, T(SBool, fmt.Sprintf("(forall ((r Ref)) (! %s :pattern ((select %s r))))", okRef(fmt.Sprintf("(select %s r)", h.S)), h.S)))
+	case v == SSlice:
+		c.defFact(h, T(SBool, fmt.Sprintf("(forall ((r Ref)) (! %s :pattern ((select %s r))))", okRef(fmt.Sprintf("(s-arr (select %s r))", h.S)), h.S)))
+	case v == ArrSort(SInt, SRef):
+		c.defFact(h, T(SBool, fmt.Sprintf("(forall ((r Ref) (i Int)) (! %s :pattern ((select (select %s r) i))))", okRef(fmt.Sprintf("(select (select %s r) i)", h.S)), h.S)))
+	case v == ArrSort(SInt, SSlice):
+		c.defFact(h, T(SBool, fmt.Sprintf("(forall ((r Ref) (i Int)) (! %s :pattern ((select (select %s r) i))))", okRef(fmt.Sprintf("(s-arr (select (select %s r) i))", h.S)), h.S)))
+	}
 }
 
 func (c *VCtx) setHeap(st *State, name string, t *Term) {
@@ -302,6 +337,7 @@ func (c *VCtx) havocHeap(st *State, name string) *Term {
 		return nil
 	}
 	t := c.fresh("H!"+name, sort)
+	c.heapWellFormed(st, name, t)
 	st.heaps[name] = t
 	return t
 }
@@ -811,6 +847,17 @@ func (c *VCtx) execFunction(fr *Frame, st *State) (*State, Val) {
 		unsup("inlining depth exceeded at %s", fn)
 	}
 	fr.entry = st.clone()
+	if fr.contract != nil && len(fr.contract.Assumes) > 0 {
+		var args []Val
+		for _, p := range fn.Params {
+			args = append(args, fr.env[p])
+		}
+		sc := c.contractScope(fn, fr.contract, nil, args, st, st, nil)
+		for _, a := range fr.contract.Assumes {
+			c.fact(Implies(st.pc, c.translateBool(sc, a.E)))
+			c.eng.assume("assumed (definitional) in " + FuncKey(fn) + ": " + a.Src)
+		}
+	}
 	incoming := map[*ssa.BasicBlock][]inEdge{}
 	incoming[fn.Blocks[0]] = []inEdge{{nil, st}}
 	for _, b := range rpo(fn) {
